@@ -6,9 +6,17 @@ use helgoboss_midi::*;
 /// Runs a history (4 integers per operation) on a scanner, appending 3 integers per operation.
 pub fn run_ops(sc: &mut ControlChange14BitMessageScanner, ops: &[i64], obs: &mut Vec<i64>) -> bool {
     let mut prev = [0i64, 248, 0, 0];
-    for op in ops.chunks(4) {
+    let mut silent: Option<(usize, i64, usize, usize)> = None;
+    for (idx, op) in ops.chunks(4).enumerate() {
         if op.len() < 4 {
             break;
+        }
+        if op[0] == 11 {
+            // marker: the next 2*w operations are two copies of one block of w operations;
+            // between the two copies the block runs op[1] more times without being observed
+            // (the model runs the two copies: the block is stable from its second run on)
+            silent = Some((idx + op[2].max(0) as usize, op[1].max(0), idx + 1, op[2].max(0) as usize));
+            continue;
         }
         if op[0] == 9 {
             // the previous operation op[1] (>= 2) more times; observed: the first and the last
@@ -63,6 +71,19 @@ pub fn run_ops(sc: &mut ControlChange14BitMessageScanner, ops: &[i64], obs: &mut
         match r {
             Some(o) => obs.extend_from_slice(&enc_cc14(&o)),
             None => return false,
+        }
+        if let Some((last, n, start, w)) = silent {
+            if idx == last {
+                silent = None;
+                let block = &ops[4 * start..(4 * (start + w)).min(ops.len())];
+                let mut scratch = Vec::new();
+                for _ in 0..n {
+                    scratch.clear();
+                    if !run_ops(sc, block, &mut scratch) {
+                        return false;
+                    }
+                }
+            }
         }
     }
     true
@@ -266,6 +287,7 @@ pub fn gen_c07(tier: Tier, seed: u64, em: &mut Emitter) {
         }
         em.emit_k("scan_encode", 71, inp);
     }
+    long_runs(tier, &mut r, em);
 }
 
 /// Abstract alphabet for the bounded-exhaustive part.
@@ -281,6 +303,40 @@ const ABS: [[i64; 4]; 10] = [
     [2, 0, 0, 0],
     [0, 242, 33, 12],
 ];
+
+/// Very long runs: one operation 70 000 / 2^24+5 times, counts around 2^16, a block of two
+/// operations about 2^16 times, and (thorough tier, optimised build) one operation 2^32+5 times.
+pub fn long_runs(tier: Tier, r: &mut Rng, em: &mut Emitter) {
+    // one operation repeated very many times (op kind 9)
+    {
+        let n: i64 = if cfg!(debug_assertions) { 70_000 } else { (1 << 24) + 5 };
+        let s = 176 + r.below(16) as i64;
+        let c = r.below(32) as i64;
+        em.emit_k("one operation repeated very many times", 80, vec![0, s, c, 5, 9, n, 0, 0, 0, s, c + 32, 6]);
+        em.emit_k("one operation repeated very many times", 80, vec![0, s, c, 5, 0, s, c + 32, 6, 9, n, 0, 0, 0, s, c, 7, 0, s, c + 32, 8]);
+        em.emit_k("one operation repeated very many times", 80, vec![0, s, c, 5, 0, s, 70, 6, 9, n, 0, 0, 0, s, c + 32, 8]);
+    }
+    crate::nrpn::huge_repeat_records(80, tier, r, em);
+    {
+        // counts around 2^16, and a block of two operations about 2^16 times (marker 11)
+        let s = 176 + r.below(16) as i64;
+        let o = 176 + (s - 176 + 1) % 16;
+        let c = r.below(32) as i64;
+        for d in 0..13i64 {
+            let n = 65_528 + d;
+            em.emit_k("one operation repeated about 2^16 times", 80, vec![0, s, c, 5, 0, s, 70, 1, 9, n, 0, 0, 0, s, c + 32, 6]);
+        }
+        for d in 0..6i64 {
+            let n = 65_532 + d;
+            let block = [2, 0, 0, 0, 0, o, 3, 5];
+            let mut h = vec![0, s, c, 5, 11, n, 2, 0];
+            h.extend_from_slice(&block);
+            h.extend_from_slice(&block);
+            h.extend_from_slice(&[0, s, c + 32, 6, 0, o, 35, 1]);
+            em.emit_k("a block repeated about 2^16 times", 80, h);
+        }
+    }
+}
 
 pub fn gen_c08(tier: Tier, seed: u64, em: &mut Emitter) {
     let mut r = Rng::new(seed ^ 0xC08);
@@ -322,15 +378,7 @@ pub fn gen_c08(tier: Tier, seed: u64, em: &mut Emitter) {
             }
         }
     }
-    // one operation repeated very many times (op kind 9)
-    {
-        let n: i64 = if cfg!(debug_assertions) { 70_000 } else { (1 << 24) + 5 };
-        let s = 176 + r.below(16) as i64;
-        let c = r.below(32) as i64;
-        em.emit_k("one operation repeated very many times", 80, vec![0, s, c, 5, 9, n, 0, 0, 0, s, c + 32, 6]);
-        em.emit_k("one operation repeated very many times", 80, vec![0, s, c, 5, 0, s, c + 32, 6, 9, n, 0, 0, 0, s, c, 7, 0, s, c + 32, 8]);
-        em.emit_k("one operation repeated very many times", 80, vec![0, s, c, 5, 0, s, 70, 6, 9, n, 0, 0, 0, s, c + 32, 8]);
-    }
+    long_runs(tier, &mut r, em);
     // this scanner has no notion of time: real time passing between MSB and LSB changes nothing
     let sleeps: &[i64] = if tier == Tier::Thorough { &[1200, 6000] } else { &[1200] };
     for &ms in sleeps {
